@@ -79,6 +79,8 @@ const (
 	FaultCommitTimeout FaultKind = "commit-timeout" // applied, but reported as a timeout
 	FaultExists        FaultKind = "exists"         // AlreadyExists, not applied
 	FaultInvalid       FaultKind = "invalid"        // 422, not applied
+	FaultCrashBefore   FaultKind = "crash-before"   // the process dies instead of making this call
+	FaultCrashAfter    FaultKind = "crash-after"    // the call is applied, then the process dies
 )
 
 // Fault attaches a failure to API calls by signature and occurrence number, so
@@ -286,8 +288,17 @@ func (a *API) enter(verb string, r Res, name string) gate {
 		if f.matches(a.Actor, verb, r, name) {
 			f.seen++
 			if f.seen >= f.Nth && f.seen < f.Nth+f.Count && g.fault == "" {
-				g.fault = f.Kind
 				f.Hits++
+				switch f.Kind {
+				case FaultCrashBefore:
+					a.Crashed = true
+					g.processErr = errProcessGone
+					return g
+				case FaultCrashAfter:
+					g.dieAfter = true
+				default:
+					g.fault = f.Kind
+				}
 			}
 		}
 	}
